@@ -22,8 +22,11 @@ RULE = ("cases = (type-consistent nested trees, depth <= 4, for the nine levels 
         "permitted order of the public load calls with constructor arguments, redundant loads and merge=False mixed in; "
         "modifications through attribute/item writes before and after load_shell_env); plus the enumeration of all 36 "
         "level pairs x depth 1-3 x {disjoint, overlapping leaf, overlapping section} and all 15 subsets of candidate "
-        "suffixes per file location, HISTORIES on one Config object (levels loaded, replaced by different content, emptied / unloaded "
-        "again, attribute writes, one load_shell_env at the end; the view is read and judged after EVERY operation and the caller's "
+        "suffixes per file location, FORMAT METAMORPHOSIS (one assignment of trees realised with yaml / yml / json / py for all "
+        "file levels and with each file level alone as .py: every rendering must satisfy the property and all must give the same "
+        "view; key vocabulary with one / two leading underscores, trailing underscores, dunder-like names at top level and nested; "
+        "don't-care: top-level `__*` names in a .py file), HISTORIES on one Config object (levels loaded, replaced by different content, emptied / unloaded "
+        "again, attribute writes, loads with deferred merge=False and explicit merge(), one load_shell_env at the end; the view is read and judged after EVERY operation and the caller's "
         "input dicts are compared with snapshots), and random runs of the real CLI (Program.run: flags -> overrides, -f / INVOKE_RUNTIME_CONFIG -> "
         "runtime file, tasks.py -> collection + project file); non-trivial = some path is defined by at least two levels; distinct = distinct cases")
 TRUSTED = ["Lean 4.33 kernel", "axioms propext/Classical.choice/Quot.sound only",
@@ -34,7 +37,11 @@ TRUSTED = ["Lean 4.33 kernel", "axioms propext/Classical.choice/Quot.sound only"
 ASSUMPTIONS = ["level contents are type-consistent (a path is a section in every level or a leaf in every level) - the property's quantifier",
                "deletions (del cfg[...]) are outside this property (C06)",
                "the environment is read once, after the other levels are in place, as documented",
-               "no two settings map to one environment variable name (that is C16's refusal)"]
+               "no two settings map to one environment variable name (that is C16's refusal)",
+               "format independence is not judged for TOP-LEVEL names starting with two underscores in a Python-format file "
+               "(indistinguishable from the module's own specials; documented to be stripped); file parsing itself is outside the "
+               "Lean model (parsers trusted) - the format-metamorphosis family is the tie",
+               "between a load with merge=False and the next merging operation the merged view is not judged (merging was deferred by the caller)"]
 LEVEL_TEXT = ("Lean 4 proofs (get_merge_precedence for n levels and every key path, all_defined_visible, sections_union, "
               "merge_never_raises, first_existing_suffix, load_order_irrelevant) about the model of Config.merge / merge_dicts / "
               "_load_file, stated over the merge order and suffix order regenerated from the repository by behavioural probing, "
@@ -46,6 +53,8 @@ ORDER = ["defaults", "collection", "system", "user", "project", "env", "runtime"
 SUFFIXES = ["yaml", "yml", "json", "py"]
 FILE_LEVELS = ["system", "user", "project", "runtime"]
 KEYS = ["a", "b", "c", "d", "e", "k1", "key", "x_y", "sec", "opt", "Up", "n0"]
+# names a file format might treat specially: one / two leading underscores, trailing underscores, dunder-like
+UNDER_KEYS = ["_p", "__q", "t_", "__d__", "_", "_p_q", "r__"]
 LEAF_TYPES = ["str", "int", "bool", "none_or_str", "list", "float", "mixed"]
 TYPE_W = [5, 4, 4, 2, 1, 1, 2]
 ENV_TYPES = ("str", "int", "bool", "none_or_str")
@@ -57,7 +66,10 @@ def gen_schema(rng, depth=0):
     """schema: dict key -> sub-schema (section) | leaf type name"""
     n = rng.choice([2, 3, 3, 4, 5]) if depth == 0 else rng.choice([0, 1, 2, 2, 3])
     out = {}
-    for k in rng.sample(KEYS, n):
+    keys = rng.sample(KEYS, n)
+    if rng.random() < (0.5 if depth == 0 else 0.2):
+        keys += rng.sample(UNDER_KEYS, rng.choice([1, 1, 2]))
+    for k in keys:
         if depth < 3 and rng.random() < 0.4:
             out[k] = gen_schema(rng, depth + 1)
         else:
@@ -419,7 +431,7 @@ def apply_mods(c, tree, style):
     r = random.Random(style)
 
     def write(cur, k, v):
-        if r.random() < 0.5 and k.isidentifier():
+        if r.random() < 0.5 and k.isidentifier() and not k.startswith("_"):
             setattr(cur, k, v)
         else:
             cur[k] = v
@@ -434,7 +446,7 @@ def apply_mods(c, tree, style):
                         write(cur, k, copy.deepcopy(v))  # a whole new section at once
                         continue
                     write(cur, k, {})
-                go(getattr(cur, k) if (r.random() < 0.5 and k.isidentifier()) else cur[k], v)
+                go(getattr(cur, k) if (r.random() < 0.5 and k.isidentifier() and not k.startswith("_")) else cur[k], v)
             else:
                 write(cur, k, copy.deepcopy(v))
     go(c, tree)
@@ -579,10 +591,29 @@ def level_trees(case):
     return t
 
 
+def dunder_roots(case):
+    """DON'T-CARE region of format independence: a TOP-LEVEL name starting with two underscores in a PYTHON-format
+    file cannot be told from the module's own specials (__name__, __doc__, __builtins__, …) and is documented to be
+    stripped; whether such a key of a .py level is defined is not judged (the same key in YAML/JSON, nested keys, and
+    names with ONE leading underscore are judged)."""
+    roots = set()
+    for lvl, f in case.get("files", {}).items():
+        sfx = f["suffix"] if isinstance(f, dict) else f
+        if sfx == "py" and case["levels"].get(lvl) is not None:
+            roots |= {k for k in case["levels"][lvl] if k.startswith("__")}
+    return roots
+
+
+def without_roots(tree, roots):
+    return {k: v for k, v in tree.items() if k not in roots} if roots else tree
+
+
 def oracle_levels(case, view, exc):
     if exc is not None:
         return "building a type-consistent configuration through the public API raised %s" % exc
-    t = level_trees(case)
+    roots = dunder_roots(case)
+    t = {l: without_roots(x, roots) for l, x in level_trees(case).items()}
+    view = without_roots(view, roots)
     want = {}
     for lvl in ORDER:  # documented precedence, lowest first: a later level overrides
         for p, v in leaves(t[lvl]):
@@ -618,6 +649,9 @@ def replay(case):
         got = run_suffix(case)
         why = oracle_suffix(case, got)
         return why is None, why or "ok (%s)" % got
+    if case["kind"] == "formats":
+        why = check_formats(case)
+        return why is None, why or "ok"
     if case["kind"] == "history":
         why = oracle_history(case, *run_history(case))
         return why is None, why or "ok"
@@ -662,6 +696,10 @@ def gen_history(rng):
             lv = list(leaves(schema))
             p, ty = rng.choice(lv)
             ops.append({"op": "write", "path": list(p), "value": tag(gen_value(rng, ty))})
+    for op in ops:
+        if op["op"] in HIST_CODE and rng.random() < 0.3:
+            op["merge"] = False  # deferred merging
+    ops += [{"op": "merge"} for _ in range(rng.choice([0, 0, 1]))]
     rng.shuffle(ops)
     if rng.random() < 0.6:
         # the environment is read once the other levels are in place; only attribute writes follow
@@ -682,11 +720,39 @@ def gen_history(rng):
     return {"kind": "history", "ops": ops}
 
 
+def hist_roots(case):
+    """don't-care roots of a history (see dunder_roots): top-level `__*` names given to a level through a .py file"""
+    roots = set()
+    for op in case["ops"]:
+        if op.get("suffix") == "py" and op.get("tree"):
+            roots |= {k for k in op["tree"] if k.startswith("__")}
+    return roots
+
+
+def hist_stale(ops):
+    """is the merged cache out of date after these operations?  (a load with merge=False defers merging until some
+    later operation merges: a merging load, an attribute write, load_shell_env, or merge())"""
+    stale = False
+    seen = set()
+    for op in ops:
+        k = op["op"]
+        if k in ("system", "user") and k in seen:
+            continue  # the second load_system()/load_user() returns at once, merging nothing
+        seen.add(k)
+        if k in HIST_CODE and k != "modifications":
+            stale = True if op.get("merge") is False else False
+        else:
+            stale = False
+    return stale
+
+
 def hist_levels(ops):
     """level contents after the given operations (the env level: as computed when load_shell_env ran)"""
     st = {l: {} for l in ORDER}
     for op in ops:
         k = op["op"]
+        if k == "merge":
+            continue
         if k == "write":
             st["modifications"] = overlay(st["modifications"], nest(op["path"], build(op["value"])))
         elif k == "env":
@@ -722,29 +788,32 @@ def run_history(case):
             c = Config(defaults={}, system_prefix=os.path.join(sysd, ""), user_prefix=os.path.join(userd, "."), lazy=True)
             for i, op in enumerate(case["ops"]):
                 k = op["op"]
+                mk = {"merge": False} if op.get("merge") is False else {}
                 if k in ("defaults", "collection", "overrides"):
                     data = build(op["tree"])
                     held.append((k, i, data, copy.deepcopy(data)))
-                    getattr(c, "load_" + k)(data)
+                    getattr(c, "load_" + k)(data, **mk)
+                elif k == "merge":
+                    c.merge()
                 elif k in ("system", "user"):
                     stem = os.path.join(sysd, "invoke.") if k == "system" else os.path.join(userd, ".invoke.")
                     if not any(f.startswith(os.path.basename(stem)) for f in os.listdir(os.path.dirname(stem))):
                         write_file(stem + op["suffix"], op["suffix"], build(op["tree"]))
-                    getattr(c, "load_" + k)()
+                    getattr(c, "load_" + k)(**mk)
                 elif k == "project":
                     d = os.path.join(root, "proj%d" % i)
                     os.makedirs(d)
                     if op["tree"] is not None:
                         write_file(os.path.join(d, "invoke." + op["suffix"]), op["suffix"], build(op["tree"]))
                     c.set_project_location(None if op.get("unset") else d)
-                    c.load_project()
+                    c.load_project(**mk)
                 elif k == "runtime":
                     path = None
                     if op["tree"] is not None:
                         path = os.path.join(root, "rt%d.%s" % (i, op["suffix"]))
                         write_file(path, op["suffix"], build(op["tree"]))
                     c.set_runtime_path(path)
-                    c.load_runtime()
+                    c.load_runtime(**mk)
                 elif k == "write":
                     cur = c
                     for key in op["path"][:-1]:
@@ -776,6 +845,8 @@ def oracle_history(case, views, exc, changed):
     if exc is not None:
         return "operation %d of a type-consistent history raised %s" % (len(views) + 1, exc)
     for i, view in enumerate(views):
+        if hist_stale(case["ops"][:i + 1]):
+            continue  # merging was deferred by the caller: the cache is not expected to be current
         why = judge_view(case, i, view)
         if why:
             return why
@@ -786,7 +857,9 @@ def oracle_history(case, views, exc, changed):
 
 def judge_view(case, i, view):
     if True:
-        t = hist_levels(case["ops"][:i + 1])
+        roots = hist_roots(case)
+        t = {l: (without_roots(x, roots) if isinstance(x, dict) else x) for l, x in hist_levels(case["ops"][:i + 1]).items()}
+        view = without_roots(view, roots)
         want = {}
         for lvl in ORDER:
             for p, v in leaves(t[lvl]):
@@ -809,6 +882,7 @@ def judge_view(case, i, view):
 
 def history_line(case):
     parts = ["hist", enc_str("INVOKE_")]
+    roots = hist_roots(case)
     mods = {}
     seen = set()
     for op in case["ops"]:
@@ -816,22 +890,95 @@ def history_line(case):
         if k == "env":
             parts.append("e=" + enc_environ(op["environ"]))
             continue
-        if k == "write":
+        if k == "merge":
+            parts.append("g")
+        elif k == "write":
             mods = overlay(mods, nest(op["path"], build(op["value"])))
-            parts.append("m=" + enc_tree(mods))
+            parts.append("m=" + enc_tree(without_roots(mods, roots)))
         elif k in ("system", "user") and k in seen:
             pass
         else:
             seen.add(k)
-            parts.append(HIST_CODE[k] + "=" + ("-" if is_unset(op) else enc_tree(build(op["tree"]) if op["tree"] is not None else {})))
+            tree = without_roots(build(op["tree"]) if op["tree"] is not None else {}, roots)
+            parts.append(HIST_CODE[k] + ("u" if op.get("merge") is False else "") + "=" + ("-" if is_unset(op) else enc_tree(tree)))
         parts.append("v")
     return " ".join(parts)
+
+
+# ------------------------------------------------------------------ the file format does not change what a level defines
+
+def gen_formats_case(rng):
+    """one assignment of trees to the levels; it is then realised with every supported format for the file levels"""
+    while True:
+        schema = gen_schema(rng)
+        if not schema_ok(schema):
+            continue
+        levels = {}
+        for lvl in ORDER:
+            if lvl in ("env", "modifications"):
+                continue
+            p = 0.8 if lvl in FILE_LEVELS else 0.4
+            levels[lvl] = tag(gen_level(rng, schema, 0.7)) if rng.random() < p else None
+        if any(levels[l] for l in FILE_LEVELS):
+            break
+    at_load = {}
+    for lvl in ORDER:
+        if lvl not in ("env", "modifications") and levels[lvl] is not None:
+            at_load = overlay(at_load, build(levels[lvl]))
+    environ = {}
+    for p, _ in leaves(at_load):
+        ty = schema_type(schema, p)
+        if ty in ENV_TYPES and rng.random() < 0.2:
+            environ["INVOKE_" + var_of(p)] = env_value(rng, ty)
+    return {"kind": "formats", "levels": levels, "environ": environ}
+
+
+def format_variants(case):
+    """(label, files) - every format for all file levels at once, and each file level alone in Python format"""
+    present = [l for l in FILE_LEVELS if case["levels"].get(l) is not None]
+    out = [(sfx, {l: {"suffix": sfx, "decoys": [], "broken": []} for l in present}) for sfx in SUFFIXES]
+    for l in present:
+        out.append(("py:" + l, {x: {"suffix": "py" if x == l else "json", "decoys": [], "broken": []} for x in present}))
+    return out
+
+
+def as_levels_case(case, files):
+    steps = ["collection", "project", "runtime", "defaults", "overrides", "system", "user", "modsA"]
+    return {"kind": "levels", "schema": None, "levels": case["levels"], "files": files, "modsA": {}, "modsB": {},
+            "environ": case["environ"], "ctor": {"defaults": False, "overrides": False, "project": False, "runtime": False, "lazy": True},
+            "steps": steps, "nomerge": [False] * len(steps), "style": 0}
+
+
+def check_formats(case):
+    """-> why | None.  Every rendering must satisfy the property, and all renderings must give the SAME view
+    (don't-care: top-level `__*` names of the file levels, which the Python format cannot carry)."""
+    roots = set()
+    for l in FILE_LEVELS:
+        if case["levels"].get(l) is not None:
+            roots |= {k for k in case["levels"][l] if k.startswith("__")}
+    first = None
+    for label, files in format_variants(case):
+        lc = as_levels_case(case, files)
+        view, exc = run_levels(lc)
+        why = oracle_levels(lc, view, exc)
+        if why:
+            return "file levels as %s: %s" % (label, why)
+        canon = enc_tree(without_roots(view, roots), canon=True)
+        if first is None:
+            first = (label, canon, view)
+        elif canon != first[1]:
+            a = {p: typed(v) for p, v in leaves(without_roots(first[2], roots))}
+            b = {p: typed(v) for p, v in leaves(without_roots(view, roots))}
+            diff = sorted(set(a.items()) ^ set(b.items()))[:3]
+            return "the same level contents give a different view as %s than as %s: %r" % (label, first[0], diff)
+    return None
 
 # ------------------------------------------------------------------ model side
 
 def view_line(case):
-    lv = {l: (build(x) if x is not None else {}) for l, x in case["levels"].items()}
-    mods_a, mods_b = build(case["modsA"]), build(case["modsB"])
+    roots = dunder_roots(case)
+    lv = {l: without_roots(build(x) if x is not None else {}, roots) for l, x in case["levels"].items()}
+    mods_a, mods_b = without_roots(build(case["modsA"]), roots), without_roots(build(case["modsB"]), roots)
     parts = ["view", enc_str("INVOKE_"), enc_environ(case["environ"])]
     parts += [enc_tree(lv[l]) for l in ("defaults", "collection", "system", "user", "project", "runtime", "overrides")]
     parts += [enc_tree(mods_a), enc_tree(overlay(mods_a, mods_b))]
@@ -854,13 +1001,13 @@ def run(ctx):
     rng = ctx.rng
     drv = LeanDriver("drv_val")
     cases = pair_cases(SUFFIXES if (ctx.thorough or ctx.escalated) else ("json",))
-    cases += [gen_case(rng) for _ in range(ctx.n(3000, 40000))]
+    cases += [gen_case(rng) for _ in range(ctx.n(2200, 40000))]
     sfx = suffix_cases()
     mrg = merge_cases(ctx, rng)
     lines = [view_line(c) for c in cases]
     lines += ["suffix " + (",".join(c["present"]) or "-") for c in sfx]
     lines += ["merge %s %s" % (enc_tree(build(c["base"])), enc_tree(build(c["upd"]))) for c in mrg]
-    hst = [gen_history(rng) for _ in range(ctx.n(1200, 15000))]
+    hst = [gen_history(rng) for _ in range(ctx.n(1000, 15000))]
     lines += [history_line(c) for c in hst]
     model = drv.run(lines) if ctx.model_ok else [None] * len(lines)
     for c, m in zip(cases, model):
@@ -884,7 +1031,7 @@ def run(ctx):
         why = oracle_levels(c, view, exc)
         if m is not None:
             out.traces += 1
-            got = "err:" + exc if exc else "ok " + enc_tree(view, canon=True)
+            got = "err:" + exc if exc else "ok " + enc_tree(without_roots(view, dunder_roots(c)), canon=True)
             mm = m if m.startswith("err:") else " ".join(m.split(" ")[:2])
             if m.startswith("ok ") and m.endswith("tc=0"):
                 out.hist["model_says_not_type_consistent"] += 1
@@ -924,12 +1071,31 @@ def run(ctx):
         out.hist["history_emptied:%d" % min(2, sum(1 for op in c["ops"] if op["op"] in HIST_CODE and (op.get("tree") is None or op.get("tree") == {})))] += 1
         out.hist["history_env:%d" % ("env" in kinds)] += 1
         out.hist["history_unset:%d" % min(2, sum(1 for op in c["ops"] if is_unset(op)))] += 1
+        out.hist["history_deferred_merges:%d" % min(3, sum(1 for op in c["ops"] if op.get("merge") is False))] += 1
+        ei = kinds.index("env") if "env" in kinds else None
+        if ei is not None:
+            out.hist["history_env_load_on:%s_cache" % ("stale" if hist_stale(c["ops"][:ei]) else "fresh")] += 1
         if m is not None:
             out.traces += 1
-            got = "|".join("ok " + enc_tree(v, canon=True) for v in views) + ("|err:" + exc if exc else "")
+            got = "|".join("ok " + enc_tree(without_roots(v, hist_roots(c)), canon=True) for v in views) + ("|err:" + exc if exc else "")
             if got != m:
                 out.disagree(c, got[:500], m[:500])
         why = oracle_history(c, views, exc, changed)
+        if why:
+            out.fail(c, why)
+    for _ in range(ctx.n(160, 3000)):
+        c = gen_formats_case(rng)
+        out.case(c, True)
+        out.hist["formats"] += 1
+        tops = set()
+        for l in FILE_LEVELS:
+            if c["levels"].get(l) is not None:
+                tops |= set(c["levels"][l])
+                out.hist["formats_level:" + l] += 1
+        out.hist["formats_top_key:one_underscore:%d" % any(k.startswith("_") and not k.startswith("__") for k in tops)] += 1
+        out.hist["formats_top_key:two_underscores(py dont-care):%d" % any(k.startswith("__") for k in tops)] += 1
+        out.hist["formats_top_key:trailing_underscore:%d" % any(k.endswith("_") and not k.startswith("_") for k in tops)] += 1
+        why = check_formats(c)
         if why:
             out.fail(c, why)
     for _ in range(ctx.n(150, 2500)):
